@@ -152,8 +152,12 @@ func (root *Root) resolve(
 	switch tt := t.(type) {
 	case *List:
 		result, ea = root.resolveList(obj, vars, field, tt, depth-1)
-	case *Object, *Schema, *Interface, *uuSchema:
+	case *Object, *Schema, *uuSchema:
 		result, ea = root.resolveFieldSels(obj, vars, field, t, depth-1)
+	case *Interface:
+		// Resolve as the concrete object type when the Go type of obj is bound
+		// to an object type implementing the interface.
+		result, ea = root.resolveFieldSels(obj, vars, field, root.concreteType(obj, tt), depth-1)
 	case *NonNull:
 		result, ea = root.resolve(obj, vars, field, tt.Base, depth)
 	case *Union:
@@ -724,7 +728,7 @@ func (root *Root) resolveInline(
 	result map[string]interface{},
 	depth int) (ea []error) {
 
-	if sel.Condition == nil || sel.Condition == t {
+	if condApplies(sel.Condition, t) {
 		ea = root.resolveSels(obj, vars, sel.Sels, t, result, depth)
 	}
 	return
@@ -738,13 +742,64 @@ func (root *Root) resolveFragRef(
 	result map[string]interface{},
 	depth int) (ea []error) {
 
-	if sel.Fragment.Condition == nil || sel.Fragment.Condition == t {
+	if condApplies(sel.Fragment.Condition, t) {
 		ea = root.resolveSels(obj, vars, sel.Fragment.Sels, t, result, depth)
 		if 0 < len(ea) {
 			Errors(ea).in(fmt.Sprintf("fragment at %d:%d", sel.Line(), sel.Column()))
 		}
 	}
 	return
+}
+
+// condApplies returns true if a fragment with the type condition cond applies
+// to an object of type t. That is the case if there is no condition, if the
+// condition is the type itself, an interface the object type implements, or a
+// union the object type is a member of.
+func condApplies(cond, t Type) bool {
+	if cond == nil || cond == t {
+		return true
+	}
+	ot, _ := t.(*Object)
+	if ot == nil {
+		return false
+	}
+	switch ct := cond.(type) {
+	case *Interface:
+		for _, i := range ot.Interfaces {
+			if i == cond {
+				return true
+			}
+		}
+	case *Union:
+		for _, m := range ct.Members {
+			if m == t {
+				return true
+			}
+		}
+	}
+	return false
+}
+
+// concreteType returns the object type implementing the interface it that is
+// bound to the Go type of obj. If no binding is found the interface itself is
+// returned.
+func (root *Root) concreteType(obj interface{}, it *Interface) Type {
+	rt := reflect.TypeOf(obj)
+	for _, t := range root.types.list {
+		ot, _ := t.(*Object)
+		if ot == nil {
+			continue
+		}
+		for _, i := range ot.Interfaces {
+			if i == Type(it) {
+				if meta, _ := ot.metaCheck(rt); meta == rt {
+					return ot
+				}
+				break
+			}
+		}
+	}
+	return it
 }
 
 func (root *Root) getFieldDef(t Type, name string) (fd *FieldDef) {
